@@ -258,7 +258,26 @@ struct RunSpec
     unsigned seed;
     double res;
     std::string query{"single"};  // single | multistart | goalstates | region
+    json params = json::object();  // planner parameters set through the ParamSet (name -> value as string)
 };
+
+// declared planner parameters of a job ("params": {name: value-as-string}), set the way a user does (ParamSet)
+static void applyParams(const ob::PlannerPtr &p, const json &job)
+{
+    if (!job.contains("params"))
+        return;
+    for (auto it = job["params"].begin(); it != job["params"].end(); ++it)
+    {
+        try
+        {
+            if (p->params().hasParam(it.key()))
+                p->params().setParam(it.key(), it.value().get<std::string>());
+        }
+        catch (const std::exception &)
+        {
+        }
+    }
+}
 
 static json runOne(const std::vector<Entry> &reg, const json &cs, const RunSpec &rs)
 {
@@ -272,8 +291,6 @@ static json runOne(const std::vector<Entry> &reg, const json &cs, const RunSpec 
     ob::PlannerPtr p = e->make(pr.si);
     p->setProblemDefinition(pd);
     setRange(p, rangeFor(rs.range));
-    if (e->flags & F_MULTILEVEL)
-        p->setup();  // the multilevel planners do not set themselves up in solve() (documented: setup() first)
     Budget b;
     b.k = rs.budget;
     b.pdef = pd.get();
@@ -283,8 +300,15 @@ static json runOne(const std::vector<Entry> &reg, const json &cs, const RunSpec 
     std::size_t nBefore = pd->getSolutionCount();
     ob::PlannerStatus st;
     std::string thrown;
+    json rejected = json::array();
     try
     {
+        // declared parameters, set the way a user does (ParamSet); a value the planner refuses is recorded
+        for (auto it = rs.params.begin(); it != rs.params.end(); ++it)
+            if (!p->params().hasParam(it.key()) || !p->params().setParam(it.key(), it.value().get<std::string>()))
+                rejected.push_back(it.key());
+        if (e->flags & F_MULTILEVEL)
+            p->setup();  // the multilevel planners do not set themselves up in solve() (documented: setup() first)
         st = p->solve(b.ptc());
     }
     catch (const ompl::Exception &ex)
@@ -301,6 +325,8 @@ static json runOne(const std::vector<Entry> &reg, const json &cs, const RunSpec 
     ev["start"] = cs["start"];
     ev["goal"] = cs["goal"];
     ev["query"] = rs.query;
+    ev["params"] = rs.params;
+    ev["paramsRejected"] = rejected;
     ev["xstarts"] = xstarts;
     ev["xgoals"] = xgoals;
     // a region goal has a real extent: the "tiny threshold" model clauses do not apply to it
@@ -544,6 +570,7 @@ static void runLifecycle(const std::vector<Entry> &reg, const json &job, vt::Tra
                {"qA", json{{"start", qa.start}, {"goal", qa.goal}}}, {"qB", json{{"start", qb.start}, {"goal", qb.goal}}}};
     tr.emit(reset);
     ob::PlannerPtr planner = e->make(si);
+    applyParams(planner, job);
     std::string bound;
     auto rankOf = [&](const ob::PlannerSolution &s) {
         return json{{"approx", s.approximate_}, {"diff", fx(s.difference_)}, {"len", fx(s.length_)}};
@@ -750,6 +777,7 @@ static void runCost(const std::vector<Entry> &reg, const json &job, vt::Trace &t
     ob::OptimizationObjectivePtr obj = makeObjective(oname, pr.si, straight, sense);
     pd->setOptimizationObjective(obj);
     ob::PlannerPtr p = e->make(pr.si);
+    applyParams(p, job);
     p->setProblemDefinition(pd);
     tr.emit(json{{"e", "Reset"}, {"planner", e->name}, {"objective", oname}, {"sense", sense}, {"job", job.value("id", 0)},
                  {"W", w.W}, {"H", w.H}, {"obst", job["obst"]}, {"start", job["start"]}, {"goal", job["goal"]},
@@ -849,8 +877,26 @@ int main(int argc, char **argv)
     if (mode == "list")
     {
         json a = json::array();
+        // with the parameters each planner declares (name, default, range suggestion), read from an instance
+        World w(3, 3, {});
         for (auto &e : reg)
-            a.push_back(json{{"name", e.name}, {"flags", e.flags}});
+        {
+            json params = json::array();
+            try
+            {
+                Problem pr(w, (e.flags & F_MULTILEVEL) ? "SE2" : "R2", 0.01);
+                ob::PlannerPtr p = e.make(pr.si);
+                std::map<std::string, std::string> vals;
+                p->params().getParams(vals);
+                for (auto &kv : vals)
+                    params.push_back(json{{"name", kv.first}, {"default", kv.second},
+                                          {"range", p->params().getParam(kv.first)->getRangeSuggestion()}});
+            }
+            catch (const std::exception &)
+            {
+            }
+            a.push_back(json{{"name", e.name}, {"flags", e.flags}, {"params", params}});
+        }
         std::cout << a.dump() << std::endl;
         return 0;
     }
@@ -871,6 +917,7 @@ int main(int argc, char **argv)
             {
                 RunSpec rs{r["planner"], r["space"], r["thr"], r["range"], r["budget"], r["seed"], r["res"]};
                 rs.query = r.value("query", "single");
+                rs.params = r.value("params", json::object());
                 const Entry *e = findPlanner(reg, rs.planner);
                 if (!e || (!supports(*e, rs.space) && !getenv("VERIF_FORCE_SPACE")))
                     continue;
@@ -884,7 +931,7 @@ int main(int argc, char **argv)
                 json what{{"planner", rs.planner}, {"space", rs.space}, {"W", cs["W"]}, {"H", cs["H"]},
                           {"obst", cs["obst"]}, {"start", cs["start"]}, {"goal", cs["goal"]}, {"thr", rs.thr},
                           {"range", rs.range}, {"budget", rs.budget}, {"seed", rs.seed}, {"idx", n - 1},
-                          {"query", rs.query}, {"resFrac", (long)std::lround(rs.res * 1e6)}};
+                          {"query", rs.query}, {"resFrac", (long)std::lround(rs.res * 1e6)}, {"params", rs.params}};
                 std::cout << "RUN " << (n - 1) << std::endl;
                 runIsolated(what, tr, [&] { tr.emit(runOne(reg, cs, rs)); }, 60, 900);
             }
@@ -951,6 +998,7 @@ int main(int argc, char **argv)
         if (job.value("objective", "") == "length")
             pd->setOptimizationObjective(std::make_shared<ob::PathLengthOptimizationObjective>(pr.si));
         ob::PlannerPtr p = e->make(pr.si);
+        applyParams(p, job);
         p->setProblemDefinition(pd);
         if (e->flags & F_MULTILEVEL)
             p->setup();
